@@ -828,6 +828,10 @@ def N4(ctx):
     if fn is not None:
         ws = [w for w in prog.writers().get(("rt::atomic::Store", "value"), []) if w["fn"] == dk and w["kind"] == "assign"]
         ok = False
+        uncond = False
+        for w in ws:
+            if every_path_passes(fn.body, [w["bb"]]):
+                uncond = True
         for w in ws:
             if w["idx"] == "term":
                 t = w["stmt"]
@@ -839,7 +843,10 @@ def N4(ctx):
                 lhs = canon(deep(prog, dk, fn.body.expr_of_place(w["stmt"]["lhs"])))
                 if "into_u64" in canon(e) and "rt::atomic::index(" in lhs and re.search(r"\.cnt Sub(WithOverflow)? 1\)", lhs):
                     ok = True
-        if ok:
+        if ok and not uncond:
+            ctx.bad("N4", RT + "with_mut", "the write-back of with_mut's value is conditional (e.g. skipped while panicking): a mutation made by a "
+                    "closure that unwinds is lost, unlike std's get_mut", fn.loc(), detail="write-back-conditional")
+        elif ok:
             ctx.ok("N4", RT + "with_mut", "value written back as T::into_u64 into stores[index(cnt-1)] on exit", [fn.loc()])
         else:
             ctx.bad("N4", RT + "with_mut", "with_mut must write the (possibly mutated) value back into the most recent store on exit", fn.loc())
